@@ -1,8 +1,13 @@
-//! The "baton" scheduler: real OS threads, exactly one of which runs at any time. At every hook
-//! point the running thread asks the seeded policy who runs next; if it is someone else it wakes
-//! them and parks itself. The global order of hook events is a function of (schedule seed, code).
+//! The "baton" scheduler: real OS threads, exactly one of which runs at any time. At every
+//! scheduling point (a hook in cel-interpreter, an instrumented control-flow edge in the
+//! fine-grained build, a stub call, or an intercepted futex wait) the running thread asks the
+//! seeded policy who runs next; if it is someone else it wakes them and parks itself. Blocking
+//! primitives of the code under test are simulated at the futex seam (`futex_wait`/`futex_wake`),
+//! so a thread that would block in the kernel instead hands the baton on. The global order of
+//! events is a function of (schedule seed, code).
 use crate::rng::Rng;
 use crate::workload::{Policy, SchedSpec, Stall};
+use std::cell::Cell;
 use std::collections::BTreeSet;
 use std::sync::{Condvar, Mutex};
 
@@ -10,17 +15,41 @@ use std::sync::{Condvar, Mutex};
 enum Status {
     NotStarted,
     Runnable,
+    /// parked inside a simulated futex wait on this address
+    Waiting(usize),
     Finished,
 }
 
-/// wall-clock patience before a run is declared blocked on a foreign primitive (see `yield_point`)
+/// wall-clock patience before a run is declared blocked on something the simulator does not model
 const STUCK_MS: u64 = 3000;
+
+thread_local! {
+    /// set while this thread executes scheduler code: its own Mutex/Condvar must reach the kernel
+    static IN_SCHED: Cell<bool> = const { Cell::new(false) };
+}
+
+pub fn in_scheduler() -> bool {
+    IN_SCHED.try_with(|c| c.get()).unwrap_or(true)
+}
+
+struct InSched(bool);
+impl InSched {
+    fn enter() -> InSched {
+        InSched(IN_SCHED.with(|c| c.replace(true)))
+    }
+}
+impl Drop for InSched {
+    fn drop(&mut self) {
+        let prev = self.0;
+        IN_SCHED.with(|c| c.set(prev));
+    }
+}
 
 pub enum Source {
     /// draw decisions from the policy
     Policy(SchedSpec),
     /// replay an explicit decision sequence; falls back to "keep current" when exhausted
-    Explicit { trace: Vec<u8>, enabled_sites: u32 },
+    Explicit { trace: Vec<u8>, enabled_sites: u32, fine_gap: u32, seed: u64 },
 }
 
 struct State {
@@ -29,6 +58,8 @@ struct State {
     started: bool,
     status: Vec<Status>,
     rng: Rng,
+    gap_rng: Rng,
+    fine_gap: u32,
     policy: Policy,
     stalls: Vec<Stall>,
     explicit: Option<Vec<u8>>,
@@ -39,6 +70,7 @@ struct State {
     overrun: bool,
     free_run: bool,
     foreign_block: bool,
+    deadlock: bool,
     trace: Vec<u8>,
     // PCT state
     prio: Vec<u32>,
@@ -50,7 +82,9 @@ struct State {
     switches_while_two_in_exec: u64,
     preempt_pairs: BTreeSet<(u32, u32)>,
     switch_digest: u64,
-    site_switches: [u64; 32],
+    site_switches: [u64; 34],
+    futex_waits: u64,
+    futex_wakes: u64,
 }
 
 pub struct Sched {
@@ -58,7 +92,12 @@ pub struct Sched {
     cvs: Vec<Condvar>,
     main_cv: Condvar,
     pub enabled_sites: u32,
+    pub fine_gap: u32,
 }
+
+/// pseudo-sites used in statistics
+pub const SITE_FUTEX: u32 = 32;
+pub const SITE_FINISH: u32 = 33;
 
 #[derive(Clone, Debug, Default)]
 pub struct SchedStats {
@@ -66,25 +105,25 @@ pub struct SchedStats {
     pub switches: u64,
     pub overrun: bool,
     pub foreign_block: bool,
+    pub deadlock: bool,
     pub explicit_diverged: bool,
     pub switches_while_two_in_exec: u64,
     pub preempt_pairs: Vec<(u32, u32)>,
     pub switch_digest: u64,
     pub site_switches: Vec<u64>,
+    pub futex_waits: u64,
+    pub futex_wakes: u64,
 }
 
 impl Sched {
     pub fn new(n: usize, source: Source, max_decisions: u64) -> Sched {
-        let (policy, stalls, seed, explicit, enabled_sites) = match source {
-            Source::Policy(s) => (s.policy, s.stalls, s.seed, None, s.enabled_sites),
-            Source::Explicit { trace, enabled_sites } => (
-                Policy::Random { p_milli: 0 },
-                vec![],
-                0,
-                Some(trace),
-                enabled_sites,
-            ),
+        let (policy, stalls, seed, explicit, enabled_sites, fine_gap) = match source {
+            Source::Policy(s) => (s.policy, s.stalls, s.seed, None, s.enabled_sites, s.fine_gap),
+            Source::Explicit { trace, enabled_sites, fine_gap, seed } => (Policy::Random { p_milli: 0 }, vec![], seed, Some(trace), enabled_sites, fine_gap),
         };
+        // the stream of edge gaps is separate from the policy's stream, so that an explicit
+        // schedule replays with the same gaps as the run that recorded it
+        let gap_rng = Rng::new(seed ^ 0x6a70_5f67_6170);
         let mut rng = Rng::new(seed);
         let mut prio: Vec<u32> = (0..n as u32).map(|i| i + 1000).collect();
         rng.shuffle(&mut prio);
@@ -102,6 +141,8 @@ impl Sched {
                 started: false,
                 status: vec![Status::NotStarted; n],
                 rng,
+                gap_rng,
+                fine_gap,
                 policy,
                 stalls,
                 explicit,
@@ -112,6 +153,7 @@ impl Sched {
                 overrun: false,
                 free_run: false,
                 foreign_block: false,
+                deadlock: false,
                 trace: Vec::new(),
                 prio,
                 change_points,
@@ -121,52 +163,57 @@ impl Sched {
                 switches_while_two_in_exec: 0,
                 preempt_pairs: BTreeSet::new(),
                 switch_digest: 0xcbf2_9ce4_8422_2325,
-                site_switches: [0; 32],
+                site_switches: [0; 34],
+                futex_waits: 0,
+                futex_wakes: 0,
             }),
             cvs: (0..n).map(|_| Condvar::new()).collect(),
             main_cv: Condvar::new(),
             enabled_sites,
+            fine_gap,
         }
     }
 
-    fn eligible(st: &State, t: usize) -> bool {
-        if st.status[t] == Status::Finished {
-            return false;
+    fn draw_gap(st: &mut State) -> u32 {
+        if st.fine_gap == 0 {
+            0
+        } else {
+            1 + st.gap_rng.below(2 * st.fine_gap as u64) as u32
         }
-        for s in &st.stalls {
-            if s.thread == t && st.decisions >= s.from && st.decisions < s.from + s.len {
-                return false;
-            }
-        }
-        true
     }
 
-    /// Picks the next thread to run. `cur` is the thread making the decision (it may be finished).
+    fn stalled(st: &State, t: usize) -> bool {
+        st.stalls.iter().any(|s| s.thread == t && st.decisions >= s.from && st.decisions < s.from + s.len)
+    }
+
+    /// Picks the next thread to run among the runnable ones. `cur` is the thread making the
+    /// decision (it may be finished or about to wait). None = nobody can run.
     fn choose(st: &mut State, cur: usize) -> Option<usize> {
-        let alive: Vec<usize> = (0..st.n).filter(|t| st.status[*t] != Status::Finished).collect();
-        if alive.is_empty() {
+        let runnable: Vec<usize> = (0..st.n).filter(|t| st.status[*t] == Status::Runnable).collect();
+        if runnable.is_empty() {
             return None;
         }
         let idx = st.decisions;
         st.decisions += 1;
+        let cur_runnable = cur < st.n && st.status[cur] == Status::Runnable;
         if let Some(tr) = &st.explicit {
             let want = tr.get(idx as usize).map(|x| *x as usize);
             let pick = match want {
-                Some(w) if w < st.n && st.status[w] != Status::Finished => w,
+                Some(w) if w < st.n && st.status[w] == Status::Runnable => w,
                 _ => {
                     st.explicit_diverged = true;
-                    if st.status.get(cur).copied() != Some(Status::Finished) && cur < st.n {
+                    if cur_runnable {
                         cur
                     } else {
-                        alive[0]
+                        runnable[0]
                     }
                 }
             };
             return Some(pick);
         }
-        let mut cands: Vec<usize> = alive.iter().copied().filter(|t| Self::eligible(st, *t)).collect();
+        let mut cands: Vec<usize> = runnable.iter().copied().filter(|t| !Self::stalled(st, *t)).collect();
         if cands.is_empty() {
-            cands = alive.clone();
+            cands = runnable.clone();
         }
         let cur_ok = cur < st.n && cands.contains(&cur);
         let pick = match st.policy.clone() {
@@ -226,10 +273,10 @@ impl Sched {
             st.switches_while_two_in_exec += 1;
         }
         let to_site = st.parked_site[to];
-        if site != u32::MAX && to_site != u32::MAX {
+        if site < SITE_FUTEX && to_site != u32::MAX {
             st.preempt_pairs.insert((site, to_site));
         }
-        if (site as usize) < 32 {
+        if (site as usize) < st.site_switches.len() {
             st.site_switches[site as usize] += 1;
         }
         // digest of (decision index, from, to, site): identifies the context-switch trace
@@ -238,19 +285,60 @@ impl Sched {
         }
     }
 
+    fn release_everyone(&self, st: &mut State) {
+        st.free_run = true;
+        for cv in &self.cvs {
+            cv.notify_all();
+        }
+    }
+
+    /// Every live thread waits on a futex nobody will wake: the execution is deadlocked. The threads
+    /// cannot be unwound out of the primitives they block in, so the verdict is delivered through the
+    /// process exit code (the orchestrator treats it like a crash of this run index and replays it).
+    fn deadlocked(&self, st: &mut State) -> ! {
+        st.deadlock = true;
+        let waits: Vec<String> = st.status.iter().enumerate().map(|(t, s)| format!("t{}={:?}", t, s)).collect();
+        eprintln!("celsim: DEADLOCK after {} decisions: {}", st.decisions, waits.join(" "));
+        std::process::exit(4);
+    }
+
+    /// Parks the calling thread (which must have released the baton) until it is current again.
+    fn park_until_current<'a>(&'a self, mut st: std::sync::MutexGuard<'a, State>, tid: usize) -> std::sync::MutexGuard<'a, State> {
+        while !(st.free_run || st.current == tid) {
+            // The baton holder normally reaches its next scheduling point within microseconds. If no
+            // decision at all is made for STUCK_MS of wall time, the holder is blocked on something the
+            // simulator does not model (a spin lock, a foreign blocking call). That is an artefact of
+            // serialising threads, not a behaviour of the code: stop scheduling and let all threads run
+            // freely; the oracles stay sound on any real execution, only deterministic replay of this
+            // run is lost (flagged `foreign_block`).
+            let seen = st.decisions;
+            let (g, to) = self.cvs[tid].wait_timeout(st, std::time::Duration::from_millis(STUCK_MS)).unwrap();
+            st = g;
+            if to.timed_out() && !st.free_run && st.current != tid && st.decisions == seen {
+                st.foreign_block = true;
+                self.release_everyone(&mut st);
+            }
+        }
+        st
+    }
+
     /// Called by each simulated thread before it does anything: blocks until it is given the baton.
-    pub fn wait_start(&self, tid: usize) {
+    /// Returns the number of instrumented edges until its first edge decision (0 = none).
+    pub fn wait_start(&self, tid: usize) -> u32 {
+        let _g = InSched::enter();
         let mut st = self.m.lock().unwrap();
         st.status[tid] = Status::Runnable;
         self.main_cv.notify_all();
         while !(st.free_run || (st.started && st.current == tid)) {
             st = self.cvs[tid].wait(st).unwrap();
         }
+        Self::draw_gap(&mut st)
     }
 
     /// Called by the main thread once all threads are spawned: waits until every thread is parked
     /// at its start line, then hands the baton to the first chosen thread.
     pub fn start(&self) {
+        let _g = InSched::enter();
         let mut st = self.m.lock().unwrap();
         while st.status.iter().any(|s| *s == Status::NotStarted) {
             st = self.main_cv.wait(st).unwrap();
@@ -264,25 +352,32 @@ impl Sched {
     }
 
     pub fn set_in_exec(&self, tid: usize, v: bool) {
+        let _g = InSched::enter();
         let mut st = self.m.lock().unwrap();
         st.in_exec[tid] = v;
     }
 
-    /// A hook point reached by thread `tid` (which must hold the baton).
-    pub fn yield_point(&self, tid: usize, site: u32) {
+    /// A scheduling point reached by thread `tid`. Returns the number of instrumented edges until
+    /// this thread's next edge decision (0 = none).
+    pub fn yield_point(&self, tid: usize, site: u32) -> u32 {
+        let _g = InSched::enter();
         let mut st = self.m.lock().unwrap();
         if st.free_run {
-            return;
+            return st.fine_gap;
         }
-        debug_assert_eq!(st.current, tid);
+        if st.current != tid {
+            // can only happen for a thread the simulator lost track of (e.g. after a wait that went
+            // to the kernel): wait for the baton rather than run beside its holder
+            st = self.park_until_current(st, tid);
+            if st.free_run {
+                return st.fine_gap;
+            }
+        }
         if st.decisions >= st.max_decisions {
             // I6: bounded progress exceeded. Stop scheduling; let everything run out.
             st.overrun = true;
-            st.free_run = true;
-            for cv in &self.cvs {
-                cv.notify_all();
-            }
-            return;
+            self.release_everyone(&mut st);
+            return st.fine_gap;
         }
         let next = Self::choose(&mut st, tid).unwrap_or(tid);
         st.trace.push(next as u8);
@@ -291,70 +386,116 @@ impl Sched {
             Self::note_switch(&mut st, tid, next, site);
             st.current = next;
             self.cvs[next].notify_all();
-            while !(st.free_run || st.current == tid) {
-                // The baton holder normally reaches its next hook point within microseconds. If no
-                // decision at all is made for STUCK_MS of wall time, the holder is blocked in the
-                // kernel on something a parked thread owns (a lock added by the code under test):
-                // an artefact of serialising threads, not a behaviour of the code. Stop scheduling
-                // and let all threads run freely; the oracles stay sound on any real execution,
-                // only deterministic replay of this run is lost (flagged `foreign_block`).
-                let seen = st.decisions;
-                let (g, to) = self.cvs[tid].wait_timeout(st, std::time::Duration::from_millis(STUCK_MS)).unwrap();
-                st = g;
-                if to.timed_out() && !st.free_run && st.current != tid && st.decisions == seen {
-                    st.foreign_block = true;
-                    st.free_run = true;
-                    for cv in &self.cvs {
-                        cv.notify_all();
-                    }
-                }
-            }
+            st = self.park_until_current(st, tid);
             st.parked_site[tid] = u32::MAX;
         }
+        Self::draw_gap(&mut st)
+    }
+
+    /// The code under test is about to block in FUTEX_WAIT on `addr` (the caller has already checked
+    /// that the futex word still holds the expected value; nobody else ran in between). Returns false
+    /// if the wait is not simulated and must go to the kernel.
+    pub fn futex_wait(&self, tid: usize, addr: usize) -> bool {
+        let _g = InSched::enter();
+        let mut st = self.m.lock().unwrap();
+        if st.free_run || st.current != tid {
+            return false;
+        }
+        st.futex_waits += 1;
+        st.status[tid] = Status::Waiting(addr);
+        match Self::choose(&mut st, tid) {
+            Some(next) => {
+                st.trace.push(next as u8);
+                st.parked_site[tid] = SITE_FUTEX;
+                Self::note_switch(&mut st, tid, next, SITE_FUTEX);
+                st.current = next;
+                self.cvs[next].notify_all();
+                st = self.park_until_current(st, tid);
+                st.parked_site[tid] = u32::MAX;
+                if st.status[tid] != Status::Finished {
+                    st.status[tid] = Status::Runnable;
+                }
+                true
+            }
+            None => self.deadlocked(&mut st),
+        }
+    }
+
+    /// FUTEX_WAKE on `addr` by the running thread: up to `n` simulated waiters become runnable
+    /// (lowest thread index first). Returns how many.
+    pub fn futex_wake(&self, addr: usize, n: usize) -> usize {
+        let _g = InSched::enter();
+        let mut st = self.m.lock().unwrap();
+        let mut woken = 0;
+        for t in 0..st.n {
+            if woken >= n {
+                break;
+            }
+            if st.status[t] == Status::Waiting(addr) {
+                st.status[t] = Status::Runnable;
+                woken += 1;
+            }
+        }
+        st.futex_wakes += woken as u64;
+        woken
     }
 
     /// Thread `tid` has finished its op list: pass the baton on.
     pub fn finish(&self, tid: usize) {
+        let _g = InSched::enter();
         let mut st = self.m.lock().unwrap();
         st.status[tid] = Status::Finished;
         st.in_exec[tid] = false;
         if st.free_run {
             return;
         }
-        if let Some(next) = Self::choose(&mut st, tid) {
-            st.trace.push(next as u8);
-            Self::note_switch(&mut st, tid, next, u32::MAX);
-            st.current = next;
-            self.cvs[next].notify_all();
+        if st.current != tid {
+            return;
+        }
+        match Self::choose(&mut st, tid) {
+            Some(next) => {
+                st.trace.push(next as u8);
+                Self::note_switch(&mut st, tid, next, SITE_FINISH);
+                st.current = next;
+                self.cvs[next].notify_all();
+            }
+            None => {
+                if st.status.iter().any(|s| matches!(s, Status::Waiting(_))) {
+                    self.deadlocked(&mut st);
+                }
+            }
         }
     }
 
     /// Emergency release (a thread is about to unwind out of the harness): stop scheduling.
     pub fn release_all(&self) {
+        let _g = InSched::enter();
         let mut st = self.m.lock().unwrap();
-        st.free_run = true;
-        for cv in &self.cvs {
-            cv.notify_all();
-        }
+        self.release_everyone(&mut st);
     }
 
     pub fn take_trace(&self) -> Vec<u8> {
+        let _g = InSched::enter();
         let mut st = self.m.lock().unwrap();
         std::mem::take(&mut st.trace)
     }
 
     pub fn stats(&self) -> SchedStats {
+        let _g = InSched::enter();
         let st = self.m.lock().unwrap();
         SchedStats {
             decisions: st.decisions,
             switches: st.switches,
             overrun: st.overrun,
             foreign_block: st.foreign_block,
+            deadlock: st.deadlock,
             explicit_diverged: st.explicit_diverged,
             switches_while_two_in_exec: st.switches_while_two_in_exec,
             preempt_pairs: st.preempt_pairs.iter().copied().collect(),
             switch_digest: st.switch_digest,
             site_switches: st.site_switches.to_vec(),
+            futex_waits: st.futex_waits,
+            futex_wakes: st.futex_wakes,
         }
     }
 }
